@@ -31,6 +31,7 @@ impl Props {
     }
 }
 
+#[derive(Clone)]
 pub struct Case {
     pub hay: Text,
     pub needle: Text,
